@@ -146,7 +146,17 @@ pub fn seq_case<KC: KeyGen, VC: Col>(
     let page = tdb.cfg.page_size;
     let keyspace = *rng.pick(&[6u64, 24, 64, 200, 600]);
     let n_txn = rng.range(1, 8);
-    let max_pages = if rng.chance(1, 6) { 5 } else { 2 };
+    // value sizes: mostly up to 2 pages, sometimes 5, and in the "huge" stratum tens to hundreds of
+    // pages (bounded by what one region can hold when the region size is configured small, and by
+    // ~1.5 MB otherwise)
+    let max_pages = if rng.chance(1, 6) {
+        match tdb.cfg.region_pages {
+            Some(rp) => *rng.pick(&[5usize, 5, (rp as usize / 4).max(5)]),
+            None => *rng.pick(&[5usize, 40, (1_500_000 / page).min(400)]),
+        }
+    } else {
+        2
+    };
     let mut st = SeqStats {
         ops: 0,
         commits: 0,
@@ -154,6 +164,9 @@ pub fn seq_case<KC: KeyGen, VC: Col>(
         max_len: 0,
         by_op: BTreeMap::new(),
     };
+    if max_pages > 5 {
+        *st.by_op.entry("huge_value_stratum").or_insert(0) += 1;
+    }
     macro_rules! tr {
         ($($a:tt)*) => { if let Some(t) = trace.as_mut() { t.push(format!($($a)*)); } };
     }
@@ -497,7 +510,7 @@ pub fn run(rep: &Report) {
     rep.set_rule(
         "case = (operation-sequence seed, key type of 12 (ten built-in key types with keys up to ~150 bytes, plus &[u8] and &str with keys of 0..9000 bytes, i.e. larger than a page at every configured page size), value type of 2, configuration of 8): a random sequence of insert/insert_reserve/get/get_mut/entry/remove/pop/range/first/last/len/retain(_in)/extract(_from)_if over 1-8 transactions with aborts, non-durable commits and reopen, every return value compared with a BTreeMap ordered by the key type, full forward+backward scan after every transaction, after commit and after reopen; the same sequence seed is run under several page/region/cache configurations against the same model (configuration independence); plus threshold sweeps that walk leaf sizes across page/3, page/2, page, 2*page, 3*page byte by byte. Every completed sync_data is decoded by the independent format decoder. distinct_nontrivial = distinct cases in which the decoder saw a tree of depth >= 2 or a multi-page leaf (i.e. splits / large values actually happened)",
     );
-    rep.assume("value sizes stop at 5 pages, key sizes at ~9 KB; key spaces of 6..600 keys");
+    rep.assume("value sizes stop at ~1.5 MB (400 pages at the small page sizes; a quarter of a region where the region size is configured small), key sizes at ~9 KB; key spaces of 6..600 keys");
     let (n_seq, n_sweep) = match rep.tier {
         Tier::Quick => (72_000u64, 30_000u64),
         Tier::Thorough => (900_000u64, 300_000u64),
